@@ -4,17 +4,21 @@ From Continuum Require Import Model.Base Model.VTable Model.Core Checks.Corechk 
 
 Inductive C07_case :=
 | C07_H (c : core_case)
+| C07_T (c : core_case)      (* twin run only: a history the Layer-B model does not express (an entity changing its
+                                class inside a hierarchy within one transaction) *)
 | C07_R (before after : snap) (listeners : nat) (exc : bool).
 
 Definition C07_corr (c : C07_case) : bool :=
   match c with
   | C07_H h => Core_corr h
+  | C07_T h => negb (cc_exc h)
   | C07_R b a _ exc => negb exc   (* the model with versioning off writes nothing: versioning_off_writes_nothing *)
   end.
 
 Definition C07_case_prop (c : C07_case) : bool :=
   match c with
   | C07_H h => C07_prop h
+  | C07_T h => C07_prop h && forallb no_dangling (cc_snaps h)
   | C07_R b a listeners exc =>
       negb exc && (listeners =? 0)%nat &&
       table_eqb (sn_vt b) (sn_vt a) && set_eqb arow_eqb (sn_av b) (sn_av a) &&
